@@ -35,7 +35,8 @@ def run(prog: Program, rep: Report, tier: str):
     from .c12 import rank_split_rules
     for cname in ("ClassBalancedSampler", "WeightedSampler"):
         K = prog.cls(cname)
-        it = K.methods.get("__iter__")
+        it = prog.concrete_method(K, "__iter__")
+        rep.require(it is not None, f"anchor-missing: {cname}.__iter__")
         rank_split_rules(prog, rep, K, it, fa_of(prog, it), "rank", "world_size", clause="C13.5")
     S = prog.cls("SemiSampler")
     ln = S.methods.get("__len__")
@@ -61,11 +62,14 @@ def epoch_state_fresh(prog: Program, rep: Report):
     n = 0
     for cname in ("SemiSampler", "ClassBalancedSampler", "WeightedSampler"):
         C = prog.raw.cls(cname)
-        it = C.methods.get("__iter__")
+        it = C.lookup("__iter__")
         if it is None:
             continue
         n += 1
-        gens = {f.name for f in C.methods.values() if any(isinstance(y, (ast.Yield, ast.YieldFrom)) for y in ast.walk(f.node))}
+        all_methods = {}
+        for K_ in reversed(C.mro_classes()):
+            all_methods.update(K_.methods)
+        gens = {f.name for f in all_methods.values() if any(isinstance(y, (ast.Yield, ast.YieldFrom)) for y in ast.walk(f.node))}
 
         def is_iterator_expr(e) -> bool:
             if isinstance(e, ast.GeneratorExp):
@@ -87,7 +91,7 @@ def epoch_state_fresh(prog: Program, rep: Report):
                 return any(is_iterator_expr(v) for v in e.values)
             return False
         held = {}
-        for f in C.methods.values():
+        for f in all_methods.values():
             if f.name == "__iter__" or f.name in gens:
                 continue
             for st in ast.walk(f.node):
@@ -98,8 +102,8 @@ def epoch_state_fresh(prog: Program, rep: Report):
         used = sorted({y.attr for y in ast.walk(it.node) if isinstance(y, ast.Attribute) and _nm(y.value) == "self" and y.attr in held})
         # also through helpers called on self from __iter__
         for y in ast.walk(it.node):
-            if isinstance(y, ast.Call) and isinstance(y.func, ast.Attribute) and _nm(y.func.value) == "self" and y.func.attr in C.methods:
-                h = C.methods[y.func.attr]
+            if isinstance(y, ast.Call) and isinstance(y.func, ast.Attribute) and _nm(y.func.value) == "self" and y.func.attr in all_methods:
+                h = all_methods[y.func.attr]
                 used = sorted(set(used) | {z.attr for z in ast.walk(h.node) if isinstance(z, ast.Attribute) and _nm(z.value) == "self"
                                             and z.attr in held})
         rep.decide(not used, "G8.epoch-state-fresh", it, "no-iterator-attribute", "every stream consumed by __iter__ is created in it",
@@ -121,7 +125,7 @@ def semi(prog: Program, rep: Report):
              "self.labeled_idxs (same for unlabeled); the pool iterator yields a whole permutation of range(len(pool)) before "
              "drawing the next one; the stream has len(self) positions")
     C = prog.cls("SemiSampler")
-    fi = C.methods.get("__iter__")
+    fi = prog.concrete_method(C, "__iter__")
     rep.require(fi is not None, "anchor-missing: SemiSampler.__iter__")
     fa = fa_of(prog, fi)
     dep = Deps(fa)
@@ -239,7 +243,7 @@ def weighted(prog: Program, rep: Report):
     rep.rule("G9.weighted-no-repeat", "WeightedSampler draws the epoch with torch.multinomial(weights, effective_length, "
              "replacement=False, generator=...): an index cannot repeat within an epoch")
     C = prog.cls("WeightedSampler")
-    fi = C.methods.get("__iter__")
+    fi = prog.concrete_method(C, "__iter__")
     rep.require(fi is not None, "anchor-missing: WeightedSampler.__iter__")
     fa = fa_of(prog, fi)
     rep.analysed_add("functions", f"{fi.module.relpath}:{fi.qualname}")
@@ -271,7 +275,7 @@ def balanced(prog: Program, rep: Report):
              "takes perm[:remaining] of a permutation (or arange) of len(that class's pool), appends pool[perm] of the same "
              "pool and decrements the remaining count by the number taken; it starts from self.samples_per_class per class")
     C = prog.cls("ClassBalancedSampler")
-    fi = C.methods.get("__iter__")
+    fi = prog.concrete_method(C, "__iter__")
     rep.require(fi is not None, "anchor-missing: ClassBalancedSampler.__iter__")
     fa = fa_of(prog, fi)
     cfg = fa.cfg
